@@ -142,6 +142,11 @@ for fn, d in _sp.items():
     T('%s(A)' % fn, 'A', (lambda r, fn=fn: getattr(sp, fn)(r)), dom=d, tags=('elem',))
 T('polygamma(1,A)', 'A', lambda r: sp.polygamma(1, r), dom=pos(0, 0.2), tags=('elem',))
 T('hyperu(1.5,0.5,A)', 'A', lambda r: sp.hyperu(1.5, 0.5, r), dom=pos(0, 0.2), tags=('elem',))
+# parameters handed in as (0-d) NumPy arrays that the caller keeps - they are constants of the recorded node
+cHa = np.array(1.5)
+cHb = np.array(0.5)
+T('hyperu(arr a,arr b,A)', 'A', lambda r: sp.hyperu(cHa, cHb, r), dom=pos(0, 0.2), tags=('elem',))
+T('polygamma(arr 1,A)', 'A', lambda r: sp.polygamma(np.array(1), r), dom=pos(0, 0.2), tags=('elem',))
 T('clip(0.4,0.8,A)', 'A', lambda r: sp.botched_clip(0.4, 0.8, r),
   dom=lambda r: _amin(np.asarray(r) - 0.4, np.asarray(r) - 0.8) > 0.03, tags=('elem',))
 T('minimum(A,A)', 'AA', algopy.minimum, dom=lambda a, b: _amin(np.asarray(a) - np.asarray(b)) > 0.03, tags=('elem',))
@@ -683,6 +688,20 @@ def fanout_programs():
             if y is None or not hasattr(y, 'shape'):
                 continue
             progs.append(prog)
+            # binary operations: the SECOND operand as the fan-out operand, and the same object on both sides
+            if len(t.ins) >= 2:
+                t1 = t.ins[1] if t.ins[1] in 'SVMT' else src[0]
+                first = src[0] + '0' if t.ins[0] == 'A' else t.ins[0] + '0'
+                alts = [[['copy(A)', [t1 + '1']], [tn, [first, 'r0'] + rest[1:]], ['A.sum()', ['r1']], ['mul(A,A)', ['r0', 'r2']]]]
+                if t.ins[0] == t.ins[1] or (t.ins[0] == 'A' and t.ins[1] == 'A'):
+                    alts.append([[pre, [src]], [tn, ['r0', 'r0'] + rest[1:]], ['A.sum()', ['r1']], ['mul(A,A)', ['r0', 'r2']]])
+                for alt in alts:
+                    try:
+                        y, _ = run(alt, np.array(POINTS[0], dtype=float))
+                    except Exception:
+                        continue
+                    if y is not None and hasattr(y, 'shape'):
+                        progs.append(alt)
     return progs
 
 
